@@ -59,6 +59,89 @@ type Mut struct {
 	Op string `json:"op"`
 	S  string `json:"s"`
 	I  int    `json:"i"`
+	E  *Edit  `json:"e"` // op "edit": an encoding-level edit of segment I of the token text
+}
+
+// Edit is an encoding-level change of a textual field AFTER the credential was made:
+//   lowbits  replace the character at Pos by the base64 alphabet neighbour whose index differs in bit K (1|2|4...)
+//   droppad / addpad   remove one trailing '=' / append one
+//   swapalpha  '+' <-> '-', '/' <-> '_' (standard vs url-safe alphabet)
+//   ins      insert S at Pos          case   flip the letter case at Pos
+//   pct      percent-encode the character at Pos        del   delete the character at Pos
+// Pos < 0 counts from the end (-1: the last character; for ins: after the last character).
+type Edit struct {
+	Op  string `json:"op"`
+	Pos int    `json:"pos"`
+	K   int    `json:"k"`
+	S   string `json:"s"`
+}
+
+type FieldEdit struct {
+	Field string `json:"field"` // sig | secret | fp
+	Edit
+}
+
+const stdAlphabet = "ABCDEFGHIJKLMNOPQRSTUVWXYZabcdefghijklmnopqrstuvwxyz0123456789+/"
+const urlAlphabet = "ABCDEFGHIJKLMNOPQRSTUVWXYZabcdefghijklmnopqrstuvwxyz0123456789-_"
+
+func applyEdit(t string, e Edit, alphabet string) string {
+	n := len(t)
+	pos := e.Pos
+	if pos < 0 {
+		pos = n + pos
+		if e.Op == "ins" {
+			pos++
+		}
+	}
+	switch e.Op {
+	case "droppad":
+		return strings.TrimSuffix(t, "=")
+	case "addpad":
+		return t + "="
+	case "swapalpha":
+		return strings.NewReplacer("+", "-", "/", "_", "-", "+", "_", "/").Replace(t)
+	case "ins":
+		if pos < 0 || pos > n {
+			pos = n
+		}
+		return t[:pos] + e.S + t[pos:]
+	}
+	if pos < 0 || pos >= n {
+		return t
+	}
+	switch e.Op {
+	case "lowbits":
+		if ix := strings.IndexByte(alphabet, t[pos]); ix >= 0 {
+			return t[:pos] + string(alphabet[ix^e.K]) + t[pos+1:]
+		}
+	case "case":
+		c := t[pos]
+		switch {
+		case c >= 'a' && c <= 'z':
+			c -= 32
+		case c >= 'A' && c <= 'Z':
+			c += 32
+		}
+		return t[:pos] + string(c) + t[pos+1:]
+	case "pct":
+		return t[:pos] + fmt.Sprintf("%%%02X", t[pos]) + t[pos+1:]
+	case "del":
+		return t[:pos] + t[pos+1:]
+	}
+	return t
+}
+
+// ownAttr: the harness's own reading of an attribute of "k=v; k=v" text (split on ';', trim the field,
+// cut at the first '=', the last assignment wins) - written here, not httpx.ParseHeader
+func ownAttr(text, name string) (string, bool) {
+	val, ok := "", false
+	for _, f := range strings.Split(text, ";") {
+		f = strings.TrimSpace(f)
+		if i := strings.IndexByte(f, '='); i >= 0 && f[:i] == name {
+			val, ok = f[i+1:], true
+		}
+	}
+	return val, ok
 }
 
 type JReq struct {
@@ -104,6 +187,8 @@ type CSReq struct {
 	GzEnc    bool    `json:"gzenc"`    // encrypt the secret with go-zero's codec.NewRsaEncrypter instead of crypto/rsa
 	SecPad   int     `json:"secpad"`   // extra "; pad=xxx" bytes in the secret (several RSA blocks)
 	Flush    bool    `json:"flush"`    // the route handler calls Flush and tries Hijack
+	Edits    []FieldEdit `json:"edits"` // encoding-level edits of the presented signature / secret / fingerprint text
+	SignTsPlain bool  `json:"signtsplain"` // the client signed the canonical decimal timestamp, the secret carries the tsfmt spelling
 }
 
 type Case struct {
@@ -294,6 +379,7 @@ type CSView struct {
 	ETab      map[string]string `json:"etab"` // AES on every block of the padded response
 	DecKeys   []string          `json:"deckeys"` // names of the generated RSA keys under which the secret decrypts to what the client encrypted
 	SecretCt  string            `json:"secretct"` // the secret attribute as sent
+	FpSent    string            `json:"fpsent"`   // the key attribute as sent
 }
 
 type CSObs struct {
@@ -403,6 +489,17 @@ func buildToken(q JReq) string {
 			b, _ := b64u.DecodeString(seg2)
 			b = append(b, []byte(m.S)...)
 			seg2 = b64u.EncodeToString(b)
+		case "edit":
+			if m.E != nil {
+				switch m.I {
+				case 0:
+					seg0 = applyEdit(seg0, *m.E, urlAlphabet)
+				case 1:
+					seg1 = applyEdit(seg1, *m.E, urlAlphabet)
+				default:
+					seg2 = applyEdit(seg2, *m.E, urlAlphabet)
+				}
+			}
 		case "siglast":
 			// same bytes, different text: set the unused trailing bits of the last character
 			const abc = "ABCDEFGHIJKLMNOPQRSTUVWXYZabcdefghijklmnopqrstuvwxyz0123456789-_"
@@ -974,8 +1071,21 @@ func buildCSReq(q CSReq, known []string, now int64) built {
 		secretField = base64.StdEncoding.EncodeToString(append(g[:], g[:]...))
 	}
 
+	fp := q.Fp
+	for _, e := range q.Edits {
+		switch e.Field {
+		case "secret":
+			secretField = applyEdit(secretField, e.Edit, stdAlphabet)
+		case "fp":
+			fp = applyEdit(fp, e.Edit, stdAlphabet)
+		}
+	}
+
 	// what the client signs
 	sts := ts
+	if q.SignTsPlain {
+		sts = strconv.FormatInt(now+q.Toff, 10)
+	}
 	if q.SToff != nil {
 		sts = strconv.FormatInt(now+*q.SToff, 10)
 	}
@@ -996,10 +1106,15 @@ func buildCSReq(q CSReq, known []string, now int64) built {
 	case "other":
 		sig = hmacB64([]byte("someone else"), content)
 	}
+	for _, e := range q.Edits {
+		if e.Field == "sig" {
+			sig = applyEdit(sig, e.Edit, stdAlphabet)
+		}
+	}
 
 	var fields []string
 	if q.Hdr != "nofp" {
-		fields = append(fields, "key="+q.Fp)
+		fields = append(fields, "key="+fp)
 	}
 	if q.Hdr != "nosecret" {
 		fields = append(fields, "secret="+secretField)
@@ -1028,31 +1143,55 @@ func buildCSReq(q CSReq, known []string, now int64) built {
 	case "upper":
 		b.header = strings.NewReplacer("key=", "Key=", "secret=", "Secret=", "signature=", "Signature=").Replace(b.header)
 		upper = true
+	case "reorder":
+		rev := make([]string, 0, len(fields))
+		for i := len(fields) - 1; i >= 0; i-- {
+			rev = append(rev, fields[i])
+		}
+		b.header = strings.Join(rev, ";")
 	}
 	b.hasHdr = q.Hdr != "missing"
 
 	// ---- independent view -------------------------------------------------
 	v := CSView{Now: now, DTab: map[string]string{}, ETab: map[string]string{}}
-	if b.hasHdr && !upper {
-		v.HasFp = q.Hdr != "nofp" && q.Fp != ""
-		v.HasSecret = q.Hdr != "nosecret"
-		v.HasSig = q.Hdr != "nosig" || q.HdrFmt == "dupsig_bad_last"
+	_ = upper
+	fpSent, sigSent, secretSent := "", "", ""
+	if b.hasHdr {
+		// what the header text says, read by the harness's own attribute parser
+		var ok bool
+		if fpSent, ok = ownAttr(b.header, "key"); ok && fpSent != "" {
+			v.HasFp = true
+		}
+		if secretSent, ok = ownAttr(b.header, "secret"); ok && secretSent != "" {
+			v.HasSecret = true
+		}
+		if sigSent, ok = ownAttr(b.header, "signature"); ok && sigSent != "" {
+			v.HasSig = true
+		}
 	}
 	for _, k := range known {
-		if k == q.Fp {
+		if k == fpSent {
 			v.FpKnown = true
 		}
 	}
-	v.Sig = sig
+	v.FpSent = fpSent
+	v.Sig = sigSent
+	if !v.HasSig {
+		v.Sig = sig
+	}
 	v.TsStr = ts
-	v.SecretCt = secretField
+	v.SecretCt = secretSent
+	if !v.HasSecret {
+		v.SecretCt = secretField
+	}
+	secretField = v.SecretCt
 	usedKey := aesKey
 	v.DecKeys = []string{}
 	if raw, err := base64.StdEncoding.DecodeString(secretField); err == nil {
 		for _, name := range keyNames {
 			if pt, ok := ownRsaDec(rsaKeys[name].priv, raw); ok && string(pt) == secretPlain {
 				v.DecKeys = append(v.DecKeys, name)
-				if v.HasSecret && v.FpKnown && name == q.Fp {
+				if v.HasSecret && v.FpKnown && name == fpSent {
 					v.SecOk = true
 				}
 			}
@@ -1348,7 +1487,7 @@ func reuseHeader(b, prev built, q CSReq, now int64) built {
 	v, pv := b.view, prev.view
 	v.Now = now
 	v.HasFp, v.HasSecret, v.HasSig = pv.HasFp, pv.HasSecret, pv.HasSig
-	v.Sig, v.SecretCt, v.DecKeys = pv.Sig, pv.SecretCt, pv.DecKeys
+	v.Sig, v.SecretCt, v.DecKeys, v.FpSent = pv.Sig, pv.SecretCt, pv.DecKeys, pv.FpSent
 	v.KeyOk, v.Key, v.TsStr, v.TsVal, v.CType, v.AesOk = pv.KeyOk, pv.Key, pv.TsStr, pv.TsVal, pv.CType, pv.AesOk
 	key, _ := hex.DecodeString(pv.Key)
 	v.TagUrl = hmacB64(key, strings.Join([]string{pv.TsStr, q.Method, q.Path, q.Query, v.Digest}, "\n"))
@@ -1667,7 +1806,7 @@ func runCS(c Case) *CSObs {
 					next.ServeHTTP(w, r)
 				}
 			}
-			serve(mk(cb), buildCS(c, n0).request(c))
+			serve(mk(cb), b.request(c)) // the very same bytes (the RSA encryption is randomised)
 			o.Seen = seen
 			ranp = &o.Ran
 		}
